@@ -79,8 +79,8 @@ Func(name, vis, doc, args, ret, addr, index, cc) ==
   [name |-> name, vis |-> vis, doc |-> doc, args |-> args, ret |-> ret,
    addr |-> addr, index |-> index, cc |-> cc]
 
-NoVft == [has |-> FALSE, pos |-> 0, size |-> None, funcs |-> <<>>]
-Vft(size, funcs) == [has |-> TRUE, pos |-> 0, size |-> size, funcs |-> funcs]
+NoVft == [has |-> FALSE, pos |-> 0, size |-> None, funcs |-> <<>>, doc |-> <<>>]
+Vft(size, funcs) == [has |-> TRUE, pos |-> 0, size |-> size, funcs |-> funcs, doc |-> <<>>]
 
 TypeDef(name, vis, fields) ==
   [k |-> "type", name |-> name, vis |-> vis, doc |-> <<>>,
